@@ -41,6 +41,8 @@ var purePackages = map[string]string{
 	"net/url":       "URL parsing is side-effect free",
 	"regexp":        "matching is side-effect free",
 	"encoding/base64": "side-effect free",
+	"encoding/json": "Marshal reads its argument only (Unmarshal is modelled separately)",
+	"github.com/go-jose/go-jose/v3/json": "Marshal reads its argument only (Unmarshal is modelled separately)",
 	"github.com/btcsuite/btcutil/base58": "side-effect free",
 	"github.com/multiformats/go-multibase": "side-effect free",
 	"github.com/multiformats/go-multihash": "side-effect free",
@@ -139,6 +141,9 @@ func (f *Frame) encodeCall(x ssa.Value, cc *ssa.CallCommon, st *State) {
 		return
 	}
 	key := keyOfFunction(fn)
+	if jsonUnmarshalKeys[key] && f.jsonUnmarshal(x, cc, args, st) {
+		return
+	}
 	fc := e.prog.contractFor(fn)
 	if fc != nil && !fc.inlineOnly() {
 		f.applyContract(x, fc, fn, key, args, resultTypes(sig), st, cc)
